@@ -191,7 +191,11 @@ func (in *Interp) newMapIter(m *Map) *mapIter {
 	}
 	switch in.MapOrder {
 	case "all":
-		it.all = true
+		// every order is explored for maps of up to 4 live keys; larger maps (the 16-entry directive table that the
+		// lexer ranges over to find the longest keyword) iterate in insertion order - stated bound of C14
+		if len(it.order) <= 4 {
+			it.all = true
+		}
 	case "reverse":
 		for i, j := 0, len(it.order)-1; i < j; i, j = i+1, j-1 {
 			it.order[i], it.order[j] = it.order[j], it.order[i]
